@@ -110,6 +110,12 @@ def main(tier):
             run.broken.append('correspondence: printer level (pformat text vs pformat_model), %d disagreements' % len(dis))
             for c in dis[:3]:
                 run.sample({'disagreement': PC.case_json(c)})
+        ntok, tdis = PC.token_disagreements(cases)
+        run.coverage['token_level_compared'] = ntok
+        if tdis:
+            run.broken.append('correspondence: token level (ast of pformat text vs ast of etoks(expr_of v)): ' + tdis[-1][:60])
+            for d in tdis[:3]:
+                run.sample({'token_disagreement': d})
         multi = set()
         kinds = {}
         viol = 0
